@@ -352,3 +352,22 @@ def c20(res):
         res.sample(_json.loads(_json.loads(line)))
     res.assumptions += ["attribute names other than the node classes' own API (parent, children, target, separator, path, ...) are represented by foo, bar, name",
                         "targets are fixed at construction (re-assigning .target, which could create cyclic links, is not modelled)"]
+
+
+@check("C19")
+def c19(res):
+    from . import m6_clone
+    from . import tlc as T
+    import itertools, json as _json
+
+    outs = m6_clone.run(res.tier)
+    m6_clone.classify(outs, res)
+    res.rule = ("TLC enumerates every ordered forest with up to MaxN nodes x class family (Node, AnyNode, user NodeMixin class, user LightNodeMixin class with __slots__, Node + SymlinkNode with up to 2 links whose "
+                "targets are nodes of the same tree, of another tree or other links) x entry node x method (deepcopy, pickle protocols 0-5; 2-5 for __slots__ classes); the expected state is the canonical copy CloneDef, "
+                "which TLC proves to satisfy the label-free predicate IsCopy (Thm_Clone). Replay: the copy is made, both structures are walked in lock-step to find the correspondence, every node of the original and the copy "
+                "is projected (parent, children, target, class, attribute), then the copy and the original are mutated and projected again.")
+    res.distinct = sum(o["vectors"] for o in outs)
+    res.exhaustive = True
+    for line in itertools.islice(T.read_lines(outs[0]["tlc"]["lines_path"]), 700, 701):
+        res.sample(_json.loads(_json.loads(line)))
+    res.assumptions += ["pickle and copy themselves (CPython) are taken as given", "node attributes: one string attribute per ordinary node (links forward it)"]
